@@ -90,8 +90,9 @@ def coverage_counts(out):
     return res
 
 
-_RE_ACCEPT = re.compile(r'<<"ACCEPT", (\d+)>>')
-_RE_REJECT = re.compile(r'<<"REJECT", (\d+), (\d+), ("[^"]*"), (<<.*?>>|"[^"]*")>>')
+# TLC wraps long tuples over several lines: allow any whitespace between the tokens
+_RE_ACCEPT = re.compile(r'<<\s*"ACCEPT",\s*(\d+)\s*>>')
+_RE_REJECT = re.compile(r'<<\s*"REJECT",\s*(\d+),\s*(\d+),\s*("[^"]*"),\s*("[^"]*")\s*>>')
 
 
 def judge(module, cfg_text, traces, workers=None, timeout=3600, env=None, heap="8g", tag=None, chunk=None, existential=False):
